@@ -62,6 +62,25 @@ Theorem C20_mux_matches_dispatched_topic : forall muxes sched f fr src,
             m_topic (ho (st_h st) (a_ptr src)) = c_topic c.
 Proof. intros muxes sched f fr src st. apply muxnext_matches_dispatched_topic. apply run_inv. Qed.
 
+(* the copy discipline does not depend on the load: after any history, with any number of
+   asynchronous handlers dispatched and not entered / entered and still running / returned with
+   retained pointers, ServeAsync.Serve hands the handler a message with the dispatcher's content in
+   storage of its own, touches nobody's message, and returns without waiting for any handler *)
+Theorem C20_async_any_load : forall muxes sched a ag hid extra,
+  let st := run muxes sched in
+  acting st a = Some ag ->
+  let st' := step muxes clone st (SAsync a hid extra) in
+  let k := length (st_agents st) in
+  exists q,
+    nth_error (st_agents st') k = Some (mkAgent q (Some (st_nd st, hid))) /\
+    length (st_agents st') = S k /\ pending_count st' = S (pending_count st) /\
+    content_of (st_h st') q = content_of (st_h st) (a_ptr ag) /\
+    (forall j agj, nth_error (st_agents st) j = Some agj ->
+        q <> a_ptr agj /\ buf_of (st_h st') q <> buf_of (st_h st') (a_ptr agj) /\
+        view_of (st_h st') (a_ptr agj) = view_of (st_h st) (a_ptr agj)) /\
+    acting st' a = Some ag.
+Proof. exact async_any_load. Qed.
+
 (* sanity: the model can express the bugs — with Payload: m.Payload a later handler sees an earlier
    handler's write and the caller's message changes; with the original pointer handed out the
    caller's message changes *)
@@ -87,5 +106,6 @@ Print Assumptions C20_isolation.
 Print Assumptions C20_events_are_contents.
 Print Assumptions C20_dispatch_unique.
 Print Assumptions C20_mux_matches_dispatched_topic.
+Print Assumptions C20_async_any_load.
 Print Assumptions C20_shallow_clone_refuted.
 Print Assumptions C20_no_clone_refuted.
